@@ -635,3 +635,108 @@ func ApplyConfigVariant(sc *world.Scenario) {
 		}
 	}
 }
+
+// ---------------------------------------------------------------------------------------------
+// a connection is closed while the proxy still holds unsent bytes for it and the peer does not take them
+
+// CloseClientWithBacklog: client 0 reads slowly; a reply is parked in its outbound buffer behind a full socket (write
+// oracle); then the proxy closes that client (how = "quit": QUIT arrives, "garbage": an invalid line arrives, "fin": the
+// client half-closes) while the socket is still full. A second client is then served normally: closing must not hang.
+func CloseClientWithBacklog(name, how string, bound int) *world.Scenario {
+	sc := &world.Scenario{Nodes: T3m(), Bound: bound, Family: "close-with-backlog", Horizon: 400, WriteOracle: true, WriteCap: 64}
+	ka := keysA[0]
+	big := GetReq(ka)
+	big.Expect = world.Bulk(patterned("A", 300))
+	reqs := []Req{PingReq(), big}
+	cs := ClientOf(reqs, false)
+	cs.Chunks[1].WaitReplies = 1
+	cs.Slow = true
+	full := func(w *world.World) bool { return w.Clients[0].Sock != nil && w.Clients[0].Sock.Unwritable }
+	switch how {
+	case "quit":
+		q := QuitReq()
+		cs.Chunks = append(cs.Chunks, world.Chunk{Data: q.Bytes, Gate: full})
+		cs.Reqs = append(cs.Reqs, q.Bytes)
+		cs.Expect = append(cs.Expect, q.Expect)
+	case "garbage":
+		cs.Chunks = append(cs.Chunks, world.Chunk{Data: []byte("hello world\r\n"), Gate: full})
+	case "fin":
+		cs.Chunks = append(cs.Chunks, world.Chunk{Data: []byte("*1\r\n"), Gate: full})
+		cs.CloseAfter = 3
+	}
+	wit := ClientOf([]Req{GetReq(keysB[0]), GetReq(keysA[1])}, false)
+	wit.Chunks[0].Gate = func(w *world.World) bool { return w.Clients[0].Sock != nil && w.Clients[0].Sock.Closed }
+	wit.Chunks[1].WaitReplies = 1
+	sc.Clients = []world.ClientSpec{cs, wit}
+	sc.Reply = func(w *world.World, bc *world.BConn, args [][]byte) ([]byte, int) {
+		if hasKey(args, ka) {
+			return big.Expect, 0
+		}
+		return nil, 0
+	}
+	sc.Name = fmt.Sprintf("%s/close-with-backlog/client-%s/d%d", name, how, bound)
+	sc.Check = func(w *world.World) []world.Violation {
+		// the witness: complete and correct, whenever the first client was closed at all
+		c0, c1 := w.Clients[0], w.Clients[1]
+		if !c0.Sock.Closed {
+			return nil // the backlog never built up in this execution (no EAGAIN was chosen)
+		}
+		rs, rest, mal := world.SplitReplies(c1.Received)
+		if mal || len(rest) > 0 || len(rs) != 2 || !bytes.Equal(rs[0], c1.Spec.Expect[0]) || !bytes.Equal(rs[1], c1.Spec.Expect[1]) {
+			return []world.Violation{{Sig: "others-stalled-after-close-with-backlog", Msg: fmt.Sprintf("a client with a reply backlog behind a full socket was closed (%s); afterwards another client received %q, expected %q", how, c1.Received, bytes.Join(c1.Spec.Expect, nil))}}
+		}
+		// what the closed client did receive is a prefix of its reply stream
+		want := bytes.Join(c0.Spec.Expect, nil)
+		if !bytes.HasPrefix(want, c0.Received) {
+			return []world.Violation{{Sig: "corrupt", Msg: fmt.Sprintf("closed client received %q, which is not a prefix of %q", c0.Received, want)}}
+		}
+		return nil
+	}
+	return sc
+}
+
+// CloseBackendWithBacklog: node A reads slowly, so request bytes are parked in the proxy's outbound buffer for it; then
+// the node resets / closes the connection while the backlog is still there. Every request gets an answer (an error for
+// those that were lost), later requests are served over a new connection, the loop does not hang.
+func CloseBackendWithBacklog(name, kind string, bound int) *world.Scenario {
+	sc := &world.Scenario{Nodes: T3m(), Bound: bound, Family: "close-with-backlog", Horizon: 400, WriteOracle: true, SlowBackends: true, WriteCap: 64,
+		Ticks: []time.Duration{150 * time.Millisecond, 150 * time.Millisecond}}
+	v := patterned("V", 200)
+	reqs := []Req{GetReq(keysA[3]), SetReq(keysA[0], v), SetReq(keysA[1], v), GetReq(keysB[0])}
+	cs := ClientOf(reqs, false)
+	cs.Chunks[1].WaitReplies = 1
+	follow := GetReq(keysA[2])
+	cs.Chunks = append(cs.Chunks, world.Chunk{Data: follow.Bytes, WaitTicks: 2})
+	cs.Reqs = append(cs.Reqs, follow.Bytes)
+	cs.Expect = append(cs.Expect, follow.Expect)
+	sc.Clients = []world.ClientSpec{cs}
+	sc.Faults = []world.Fault{{Kind: kind, Addr: AddrA, AfterW: 1, Gate: func(w *world.World) bool {
+		for _, bc := range w.BConns {
+			if bc.Addr == AddrA && !bc.Sock.Closed && bc.Sock.Unwritable {
+				return true
+			}
+		}
+		return false
+	}}}
+	sc.Name = fmt.Sprintf("%s/close-with-backlog/%s/d%d", name, kind, bound)
+	sc.Check = func(w *world.World) []world.Violation {
+		c := w.Clients[0]
+		if c.ProxyClosed {
+			return nil
+		}
+		rs, rest, mal := world.SplitReplies(c.Received)
+		if mal || len(rest) > 0 {
+			return []world.Violation{{Sig: "corrupt", Msg: fmt.Sprintf("client stream %q", c.Received)}}
+		}
+		for j, r := range rs {
+			if j < len(c.Spec.Expect) && !bytes.Equal(r, c.Spec.Expect[j]) && !world.IsError(r) {
+				return []world.Violation{{Sig: "wrong-reply-after-loss", Msg: fmt.Sprintf("request %d answered %q, reference %q", j, r, c.Spec.Expect[j])}}
+			}
+		}
+		if len(rs) < len(c.Spec.Expect) {
+			return []world.Violation{{Sig: "lost-on-backend-close", Msg: fmt.Sprintf("a node connection with unsent request bytes was lost; the client has %d of %d replies at the end", len(rs), len(c.Spec.Expect))}}
+		}
+		return nil
+	}
+	return sc
+}
